@@ -498,3 +498,28 @@ Section MapLemmas.
     - rewrite mfind_app_same by exact F1. discriminate.
   Qed.
 End MapLemmas.
+
+(* ---------------- decimal printing: the fuel of dec_N is never exhausted ---------------- *)
+Lemma dec_fuel_suffices f : forall n acc g, (n < 10 ^ N.of_nat (S f))%N ->
+  dec_pos_fuel (S f + g) n acc = dec_pos_fuel (S f) n acc.
+Proof.
+  induction f as [|f IH]; intros n acc g Hn.
+  - change (10 ^ N.of_nat 1)%N with 10%N in Hn. cbn [Nat.add dec_pos_fuel].
+    destruct (N.ltb_spec n 10); [reflexivity | lia].
+  - change (S (S f) + g)%nat with (S (S f + g)). cbn [dec_pos_fuel].
+    destruct (N.ltb_spec n 10); [reflexivity|].
+    apply IH. apply N.div_lt_upper_bound; [discriminate|].
+    replace (N.of_nat (S (S f))) with (N.succ (N.of_nat (S f))) in Hn by lia.
+    rewrite N.pow_succ_r' in Hn. exact Hn.
+Qed.
+
+Lemma dec_N_fuel_suffices n g :
+  dec_pos_fuel (S (N.to_nat (N.log2 n)) + g) n [] = dec_N n.
+Proof.
+  unfold dec_N. apply dec_fuel_suffices.
+  destruct n as [|p]; [cbn; lia|].
+  pose proof (N.log2_spec (N.pos p) ltac:(lia)) as [_ Hlt].
+  eapply N.lt_le_trans; [exact Hlt|].
+  replace (N.of_nat (S (N.to_nat (N.log2 (N.pos p))))) with (N.succ (N.log2 (N.pos p))) by lia.
+  apply N.pow_le_mono_l. lia.
+Qed.
